@@ -67,6 +67,7 @@ CLAIMED["C09"] = dict(cat="other", sec="DESIGN 4/C09",
     tech="contract-based deductive verification with abstract trunk/branch operands and symbolic sums, z3")
 
 NA = {
+ "C11": "distribution laws (uniformity, Gaussian law, grid evenness) are statements about the push-forward of a probability measure over all outcomes of the random generator; a contract over one call's return value cannot express them, and the per-call necessary conditions (constant Jacobian of the closed-form samplers, one point per LHS slab) were not brought under contract in this session (DESIGN 4/C11, 10.2)",
  "C19": "restore fidelity is a property of Lightning's checkpoint / torch.save machinery, the file system and process restarts; no contract on a repo function expresses it (DESIGN 4/C19)",
  "C20": "shift-equivariance / resolution consistency are DFT theorems about torch.fft in complex floating point; a contract on _FourierLayer.forward could only restate them as axioms of an external library (DESIGN 4/C20)",
 }
